@@ -132,6 +132,12 @@ theorem not_stored_iff {s : State} {i : Nat} : ¬ stored s i ↔ s.header i = no
   unfold stored
   cases s.header i <;> simp
 
+theorem header_of_stored {s : State} {i : Nat} (h : stored s i) : ∃ hd, s.header i = some hd ∧ hd ∈ s.headers ∧ hd.id = i := by
+  unfold stored at h
+  cases e : s.header i with
+  | none => simp [e] at h
+  | some hd => exact ⟨hd, rfl, (lookupHeader_some e).1, (lookupHeader_some e).2⟩
+
 /-- the state `saveBlock` builds after a successful `ApplyBlock`, before the pool entry is deleted -/
 def storeBlock (s1 : State) (b : Header) (sup : List SupLink) : State :=
   { s1 with headers := { b with sup := sup } :: s1.headers.filter (fun h => h.id != b.id),
